@@ -1484,7 +1484,7 @@ pub fn run(ctx: &mut Ctx) {
     }
     let mut w = World::new();
     let thorough = ctx.tier == Tier::Thorough;
-    let objects = ctx.stage_budget((12_000, 400_000), if thorough { 12_000 } else { 2_000 }, 0, 80);
+    let objects = ctx.stage_budget((60_000, 600_000), if thorough { 12_000 } else { 2_000 }, 0, 80);
     let mut rng = ctx.rng("cases");
     let mut done = 0u64;
     let mut g = 0u64;
@@ -1517,7 +1517,7 @@ pub fn run(ctx: &mut Ctx) {
     ctx.obs("rounds_started", round + 1);
     // bit flips
     let exhaustive = ctx.tier == Tier::Thorough && ctx.stage == Stage::Native;
-    let flips = ctx.stage_budget((12_000, 0), if thorough { 16_000 } else { 3_000 }, 0, 1_600);
+    let flips = ctx.stage_budget((40_000, 0), if thorough { 16_000 } else { 3_000 }, 0, 1_600);
     run_flips(ctx, &mut w, flips, exhaustive);
     ctx.obs("ee_certificates_issued", w.ee_built);
     ctx.obs("signatures_by_pool_signer", w.pool.signatures.get());
